@@ -147,6 +147,26 @@ def check_gl(project: Project, rep):
                 branches.append((cond, assigns))
 
         collect(f.body, None)
+    if len(branches) < 3 and len(ret) >= 2 and all(isinstance(r.value, ast.Tuple) and len(r.value.elts) == 3
+                                                     and all(isinstance(e, ast.Name) for e in r.value.elts) for r in ret):
+        # early-return form: every regime assigns its table and returns it
+        branches = []
+
+        def collect_ret(stmts, cond):
+            assigns = {}
+            for st in stmts:
+                if isinstance(st, ast.Assign) and isinstance(st.targets[0], ast.Name):
+                    assigns[st.targets[0].id] = st.value
+                elif isinstance(st, ast.If):
+                    collect_ret(st.body, st.test)
+                    if st.orelse:
+                        collect_ret(st.orelse, None)
+                elif isinstance(st, ast.Return) and isinstance(st.value, ast.Tuple):
+                    names = [e.id for e in st.value.elts]
+                    if all(nm in assigns for nm in names):
+                        branches.append((cond, dict(zip(("lg", "w", "x"), (assigns[nm] for nm in names)))))
+        collect_ret(f.body, None)
+        lg_n, w_n, x_n = "lg", "w", "x"
     records = []  # (threshold, declared size, weights, nodes, node)
     if len(branches) >= 3:
         for cond, assigns in branches:
